@@ -12,16 +12,11 @@ panics that are C06's known findings), and what is printed is the final machine'
 above 255.
 -/
 import Emu2a.Model.Runner
+import Emu2a.Spec.RunSpec
 import Emu2a.Model.Format
 import Emu2a.Lemmas.Fin
 namespace Emu2a.C12
-open Emu2a Emu2a.Runner
-
-/-- The schedule-driven state sequence: `stateAt 0` is the freshly built machine, and cycle `i` applies
-the interrupt and/or CPU reset scheduled for `i`, then one clock edge. -/
-def stateAt (ints resets : List Nat) (m0 : Machine) : Nat → Machine
-  | 0 => m0
-  | i + 1 => cycle ints resets i (stateAt ints resets m0 i)
+open Emu2a Emu2a.Runner Emu2a.RunSpec
 
 theorem loop_spec (ints resets : List Nat) (N : Nat) (m0 : Machine) :
     ∀ fuel k m, N ≤ k + fuel → m = stateAt ints resets m0 k →
@@ -94,14 +89,6 @@ theorem run_cycles_unique (N : Nat) (ints resets : List Nat) (m0 : Machine) (k :
     · omega
     · exact hs.2 (h4 k hs.1 hgt)
 
-/-- The specification the driver evaluates: recursion on the budget.  One more cycle of budget
-changes the outcome only if the previous budget was used up with the machine still Running. -/
-def specRun (ints resets : List Nat) (m0 : Machine) : Nat → Machine × Nat
-  | 0 => (m0, 0)
-  | n + 1 =>
-    let (m, k) := specRun ints resets m0 n
-    if k = n ∧ (k = 0 ∨ m.run = .running) then (cycle ints resets n m, n + 1) else (m, k)
-
 theorem specRun_spec (ints resets : List Nat) (m0 : Machine) : ∀ N,
     (specRun ints resets m0 N).2 ≤ N ∧
     (specRun ints resets m0 N).1 = stateAt ints resets m0 (specRun ints resets m0 N).2 ∧
@@ -164,13 +151,13 @@ theorem run_budget_monotone (N : Nat) (ints resets : List Nat) (m0 : Machine)
 /-- A scheduled cycle at or beyond the budget has no effect. -/
 theorem cycle_irrelevant (ints resets : List Nat) (k c : Nat) (m : Machine) (h : k ≠ c) :
     cycle (c :: ints) resets k m = cycle ints resets k m ∧ cycle ints (c :: resets) k m = cycle ints resets k m := by
-  simp [cycle, List.contains_cons, h]
+  simp [cycle, h]
 
 /-- Listing a cycle twice is the same as listing it once. -/
 theorem cycle_dup (ints resets : List Nat) (k c : Nat) (m : Machine) :
     cycle (c :: c :: ints) resets k m = cycle (c :: ints) resets k m ∧
     cycle ints (c :: c :: resets) k m = cycle ints (c :: resets) k m := by
-  simp [cycle, List.contains_cons]
+  simp [cycle]
 
 /-! ### Verification -/
 
@@ -190,6 +177,13 @@ theorem verify_err (e : Expect) (m : Machine) :
   obtain ⟨st, fe, ff⟩ := e
   unfold verify
   cases st <;> cases fe <;> cases ff <;> simp <;> grind
+
+/-- The model's `verify` (the `if` chain of runner/mod.rs) is the list formulation the driver
+evaluates as the specification: the first stated expectation that does not hold. -/
+theorem verify_eq_spec (e : Expect) (m : Machine) : verify e m = verifySpec e m := by
+  obtain ⟨st, fe, ff⟩ := e
+  unfold verify verifySpec stated
+  cases st <;> cases fe <;> cases ff <;> simp [List.find?] <;> grind
 
 /-! ### Command line -/
 
